@@ -74,3 +74,25 @@ Proof. split; reflexivity. Qed.
 Example insert_assembled_ex :
   insert_assembled [97; 98] [0; 0; 0] 1 [195; 169] = [97; 195; 169; 98] /\ s_insert_str [97; 98] 1 [195; 169] = SRet [97; 195; 169; 98].
 Proof. split; reflexivity. Qed.
+
+(* pop: the last character of the text (`self.chars().rev().next()`) leaves by set_len(len - ch.len_utf8()) *)
+From BV Require Import Utf8Enc.
+Theorem pop_is_assembled s spare : Valid s ->
+  match rev (chars s) with
+  | [] => s = [] /\ s_pop s = ([], None)
+  | ch :: _ => fst (s_pop s) = mlen (s ++ spare) (length s - length ch) /\ snd (s_pop s) = decode ch /\
+               (length ch <= length s)%nat
+  end.
+Proof.
+  intros V. destruct (chars_spec s V) as [Hc Hwf]. unfold s_pop.
+  destruct (rev (chars s)) as [|ch before] eqn:E.
+  - assert (chars s = []) by (rewrite <- (rev_involutive (chars s)), E; reflexivity).
+    rewrite H in Hc. cbn in Hc. subst s. split; reflexivity.
+  - assert (Hcs : chars s = rev before ++ [ch]) by (rewrite <- (rev_involutive (chars s)), E; reflexivity).
+    assert (Hs : s = concat (rev before) ++ ch).
+    { rewrite <- Hc, Hcs, concat_app. cbn [concat]. rewrite app_nil_r. reflexivity. }
+    cbn [fst snd]. split; [|split; [reflexivity|]].
+    + unfold mlen. assert (L : (length s - length ch)%nat = length (concat (rev before))) by (rewrite Hs, app_length; lia).
+      rewrite L. rewrite Hs, <- app_assoc. symmetry. apply firstn_app_exact. reflexivity.
+    + rewrite Hs, app_length. lia.
+Qed.
